@@ -19,10 +19,25 @@ const checkerPkg = modPath + "/pkg/provider/checker"
 type c20namer struct {
 	fx *Facts
 	fn *ssa.Function
+	// parameters of a package helper the step closure returns the verdict of -> the arguments of that call
+	subst map[ssa.Value]ssa.Value
+}
+
+// actual: v, or the argument a helper parameter stands for.
+func (n *c20namer) actual(v ssa.Value) ssa.Value {
+	for i := 0; i < 3; i++ {
+		a, ok := n.subst[v]
+		if !ok {
+			break
+		}
+		v = a
+	}
+	return v
 }
 
 // d describes an operand in terms of the constructor's parameters.
 func (n *c20namer) d(v ssa.Value) string {
+	v = n.actual(v)
 	switch x := v.(type) {
 	case *ssa.Const:
 		return n.fx.path(x)
@@ -55,7 +70,7 @@ func (n *c20namer) paramOfCallee(c *ssa.Call) string {
 	if c.Call.IsInvoke() {
 		return ""
 	}
-	if u, ok := c.Call.Value.(*ssa.UnOp); ok && u.Op == token.MUL {
+	if u, ok := n.actual(c.Call.Value).(*ssa.UnOp); ok && u.Op == token.MUL {
 		if fv, ok := u.X.(*ssa.FreeVar); ok {
 			return n.role(fv)
 		}
@@ -64,7 +79,7 @@ func (n *c20namer) paramOfCallee(c *ssa.Call) string {
 	// logging: `callErrorFunc(errorFunc)`, `fail(errorFunc, err)`, `failf(errorFunc, "...", args...)`
 	if h := calleeOf(c); h != nil && n.fn != nil && h.Pkg == n.fn.Pkg {
 		if pi := callsParamOnceUnlessNil(h); pi >= 0 && pi < len(c.Call.Args) {
-			if u, ok := c.Call.Args[pi].(*ssa.UnOp); ok && u.Op == token.MUL {
+			if u, ok := n.actual(c.Call.Args[pi]).(*ssa.UnOp); ok && u.Op == token.MUL {
 				if fv, ok := u.X.(*ssa.FreeVar); ok {
 					return n.role(fv)
 				}
@@ -227,6 +242,12 @@ func (n *c20namer) name(c ssa.Value) (string, bool) {
 	case *ssa.Call:
 		if p := n.paramOfCallee(x); p != "" {
 			return "C:" + p + "()", true
+		}
+		// slices.Contains(list, ""): some element of the list is empty
+		if cn := calleeName(x); (cn == "slices.Contains" || strings.HasPrefix(cn, "slices.Contains[")) && len(x.Call.Args) == 2 {
+			if k, isK := constString(x.Call.Args[1]); isK && k == "" {
+				return "ANYEMPTY:" + n.d(x.Call.Args[0]), true
+			}
 		}
 	case *ssa.BinOp:
 		a, b := n.d(x.X), n.d(x.Y)
@@ -500,6 +521,14 @@ func checkC20Closure(cx *Ctx, r *Report, cons, cl *ssa.Function) {
 		return
 	}
 	nm := &c20namer{fx: fx, fn: cl}
+	if fnName(cons) == "WithValuesNotEmptyCheck" {
+		// the search for an empty element may be the library's (slices.Contains(values(), "")) instead of a loop
+		for _, c := range callsIn(cl) {
+			if cn := calleeName(c); cn == "slices.Contains" || strings.HasPrefix(cn, "slices.Contains[") {
+				exp = c20expect{atoms: []string{"ANYEMPTY:values()"}, fail: func(v map[string]bool) bool { return v["ANYEMPTY:values()"] }, doc: exp.doc}
+			}
+		}
+	}
 	// repeatable: no stores to captured or package state, free variables are the constructor's parameters
 	for _, fv := range cl.FreeVars {
 		cell := fx.ownerCell(fv)
@@ -542,6 +571,73 @@ func checkC20Closure(cx *Ctx, r *Report, cons, cl *ssa.Function) {
 	if !okp {
 		r.Undecided("R-CHK-COND", key, w.FnPos(cl), "too many paths in step closure")
 		return
+	}
+	// `return failIfEmpty(valueName, value, errorFunc)`: the verdict is the one of a helper of the package that is
+	// handed the constructor's parameters. Its paths continue the closure's; its parameters stand for the arguments.
+	var helperFns []*ssa.Function
+	{
+		var out []Path
+		for _, p := range paths {
+			ret := p.Return()
+			var hc *ssa.Call
+			if ret != nil && len(ret.Results) == 1 {
+				if c, isC := ret.Results[0].(*ssa.Call); isC && !c.Call.IsInvoke() && constCallResult(c) == nil {
+					if h := calleeOf(c); h != nil && h.Blocks != nil && h.Parent() == nil && h.Pkg == cl.Pkg && len(h.Params) == len(c.Call.Args) {
+						hc = c
+					}
+				}
+			}
+			if hc == nil {
+				out = append(out, p)
+				continue
+			}
+			h := calleeOf(hc)
+			hps, okh := enumPaths(h, nil, 64)
+			if !okh {
+				r.Undecided("R-CHK-COND", key, w.FnPos(h), "too many paths in the helper the step closure returns the verdict of")
+				return
+			}
+			if nm.subst == nil {
+				nm.subst = map[ssa.Value]ssa.Value{}
+			}
+			for i, prm := range h.Params {
+				if old, has := nm.subst[prm]; has && old != hc.Call.Args[i] {
+					r.Undecided("R-CHK-COND", key, w.InstrPos(hc), "a helper is called with different arguments at several places of one step closure")
+					return
+				}
+				nm.subst[prm] = hc.Call.Args[i]
+			}
+			helperFns = append(helperFns, h)
+			for _, hp := range hps {
+				q := Path{Blocks: append(append([]*ssa.BasicBlock{}, p.Blocks...), hp.Blocks...), Conds: append(append([]condPol{}, p.Conds...), hp.Conds...), Raw: append(append([]condPol{}, p.Raw...), hp.Raw...)}
+				out = append(out, q)
+			}
+		}
+		paths = out
+	}
+	for _, h := range helperFns {
+		for _, b := range h.Blocks {
+			for _, in := range b.Instrs {
+				switch x := in.(type) {
+				case *ssa.Store:
+					if al, isAl := x.Addr.(*ssa.Alloc); isAl && al.Parent() == h {
+						continue
+					}
+					if ia, isIA := x.Addr.(*ssa.IndexAddr); isIA {
+						if al, isAl := ia.X.(*ssa.Alloc); isAl && al.Parent() == h {
+							continue
+						}
+					}
+					r.Fail("R-CHK-REPEAT", key+":helper", w.InstrPos(x), "the helper a step closure hands its verdict to writes state: re-evaluating the chain would not repeat the same behaviour")
+				case *ssa.MapUpdate, *ssa.Send, *ssa.Go:
+					r.Fail("R-CHK-REPEAT", key+":helper", w.InstrPos(in), "the helper a step closure hands its verdict to writes state: re-evaluating the chain would not repeat the same behaviour")
+				case *ssa.Call:
+					if nm.paramOfCallee(x) == "errorFunc" && fx.info(h).reachable(x.Block(), x.Block()) {
+						r.Fail("R-CHK-ONCE", key+":helper", w.InstrPos(x), "error callback is called inside a loop")
+					}
+				}
+			}
+		}
 	}
 	// callback discipline per path
 	okOnce := true
@@ -721,6 +817,83 @@ func checkC20Loop(cx *Ctx, r *Report, cf *ssa.Function) {
 	w, fx := cx.W, cx.Fx
 	key := w.FuncKey(cf)
 	nm := &c20namer{fx: fx, fn: cf}
+	// `return slices.ContainsFunc(c.steps, f)` with f applying its argument: the library search runs front to back and
+	// stops at the first element for which f - the step - returns true
+	if len(cf.Blocks) == 1 {
+		if rets := returnsOf(cf); len(rets) == 1 && len(rets[0].Results) == 1 {
+			if sc, isC := rets[0].Results[0].(*ssa.Call); isC {
+				if sl, pred, isSearch := elemSearchCall(sc); isSearch {
+					problem := ""
+					if fx.path(sl) != "CheckFailed/c.steps" {
+						problem = "the searched list is not c.steps"
+					}
+					var pf *ssa.Function
+					switch x := pred.(type) {
+					case *ssa.Function:
+						pf = x
+					case *ssa.MakeClosure:
+						if len(x.Bindings) == 0 {
+							pf, _ = x.Fn.(*ssa.Function)
+						}
+					}
+					// a method expression (`step.failed`) is a thunk that hands its argument on: judge the method
+					for hops := 0; hops < 2 && pf != nil && len(pf.Blocks) == 1 && len(pf.Params) == 1; hops++ {
+						cs := callsIn(pf)
+						if len(cs) != 1 {
+							break
+						}
+						g := calleeOf(cs[0])
+						if g == nil || g.Blocks == nil || len(cs[0].Common().Args) != 1 || cs[0].Common().Args[0] != ssa.Value(pf.Params[0]) {
+							break
+						}
+						if rets := returnsOf(pf); len(rets) != 1 || len(rets[0].Results) != 1 || rets[0].Results[0] != cs[0].Value() {
+							break
+						}
+						pf = g
+					}
+					if pf == nil || len(pf.Params) != 1 || pf.Blocks == nil {
+						problem = "the predicate handed to the search is not a plain function of the step"
+					} else {
+						n := 0
+						for _, c := range callsIn(pf) {
+							cc, isCall := c.(*ssa.Call)
+							if !isCall || cc.Call.Value != ssa.Value(pf.Params[0]) {
+								if isCall && calleeOf(cc) != nil && calleeOf(cc).Pkg != nil && calleeOf(cc).Pkg.Pkg.Path() != checkerPkg {
+									continue // logging
+								}
+								problem = "the predicate does more than run the step"
+								continue
+							}
+							n++
+							for _, ret := range returnsOf(pf) {
+								if len(ret.Results) != 1 || ret.Results[0] != ssa.Value(cc) {
+									problem = "the predicate does not return the step's verdict"
+								}
+							}
+						}
+						if n != 1 && problem == "" {
+							problem = "the predicate does not run the step exactly once"
+						}
+						if len(fx.info(pf).stores) > 0 {
+							problem = "the predicate writes memory"
+						}
+					}
+					for _, c := range callsIn(cf) {
+						if c != ssa.CallInstruction(sc) {
+							if cal := calleeOf(c); cal == nil || cal.Pkg == nil || cal.Pkg.Pkg.Path() == checkerPkg {
+								problem = "CheckFailed does more than one search over the steps"
+							}
+						}
+					}
+					for _, st := range fx.info(cf).stores {
+						r.Fail("R-CHK-LOOP", key+":store", w.InstrPos(st), "CheckFailed writes memory (steps must not be modified while evaluating)")
+					}
+					r.Check(problem == "", "R-CHK-LOOP", key, w.FnPos(cf), "slices.ContainsFunc over c.steps with the step itself as predicate: front to back, true exactly at the first step that returns true", problem)
+					return
+				}
+			}
+		}
+	}
 	// exactly one dynamic call: the step; its callee is element [induction] of c.steps
 	var stepCall *ssa.Call
 	for _, c := range callsIn(cf) {
